@@ -146,6 +146,7 @@ func LoadWorld(repo string, mods ...string) (*World, error) {
 		return a.Pos() < b.Pos()
 	})
 	w.findHelpers()
+	w.findCalledClosures()
 	for _, f := range w.lunarFns {
 		canonicaliseComparisons(f)
 	}
